@@ -4,7 +4,7 @@
    I/O are the runtime's.  The laws are validated on every run (each reader is run on
    every other format's output). *)
 From Coq Require Import String List.
-From Prov Require Import Str Tables IO IOProofs.
+From Prov Require Import Str Tables IO IOProofs IODispatch IODispatchProofs.
 Import ListNotations.
 Open Scope string_scope.
 
@@ -21,6 +21,56 @@ Proof. exact rejects_other_writers. Qed.
 Theorem C16_read_detects_format : forall f d, f <> FProvn -> sniff serializer_order (write_to f d) = Some f.
 Proof. exact read_detects_format. Qed.
 Print Assumptions C16_read_detects_format.
+
+(* ---- the text / bytes dispatch (IODispatch.v: ProvDocument.serialize and deserialize, the serialize / deserialize methods
+   of the four serializers, prov.read — which branch is taken for a text stream, a binary stream, a file name, a content
+   string, content bytes, and what travels: a str or its UTF-8 bytes).  text, bytes, enc, dec, ldec: the runtime's str and
+   bytes, its UTF-8 codec, and the codec open(path) uses, with the round-trip laws as premises (for the locale: that it is
+   UTF-8).  For every payload p — the text of a serialisation, of any length and content — *)
+
+(* what is written is p itself for a returned string and a text stream, and exactly its UTF-8 bytes for a binary stream
+   and a file: the same text whatever the destination kind, for all four formats *)
+Theorem C16_same_text : forall text bytes (enc : text -> bytes) (dec : bytes -> option text),
+  (forall t, dec (enc t) = Some t) ->
+  forall f d p,
+    artefact text bytes enc dec f d p
+    = Some (match d with DString | DTextStream => DText text bytes p | DBinaryStream | DPath => DBytes text bytes (enc p) end).
+Proof. exact artefact_is_payload. Qed.
+Print Assumptions C16_same_text.
+
+(* every destination kind x every source kind: deserialize hands the format's parser the payload *)
+Theorem C16_same_parser_input : forall text bytes (enc : text -> bytes) (dec ldec : bytes -> option text),
+  (forall t, dec (enc t) = Some t) -> (forall t, ldec (enc t) = Some t) ->
+  forall f d s p, f <> FProvn ->
+  exists a c x, artefact text bytes enc dec f d p = Some a /\ to_source text bytes enc dec s a = Some c /\
+                deserialize_input text bytes enc dec ldec f c = Some x /\ carries text bytes enc x p.
+Proof. exact same_parser_input. Qed.
+Print Assumptions C16_same_parser_input.
+
+Theorem C16_json_parser_gets_text : forall text bytes (enc : text -> bytes) (dec ldec : bytes -> option text),
+  (forall t, dec (enc t) = Some t) -> (forall t, ldec (enc t) = Some t) ->
+  forall d s p a c, artefact text bytes enc dec FJson d p = Some a -> to_source text bytes enc dec s a = Some c ->
+  deserialize_input text bytes enc dec ldec FJson c = Some (PText text bytes p).
+Proof. exact json_parser_gets_text. Qed.
+
+Theorem C16_xml_parser_gets_bytes : forall text bytes (enc : text -> bytes) (dec ldec : bytes -> option text),
+  (forall t, dec (enc t) = Some t) -> (forall t, ldec (enc t) = Some t) ->
+  forall d s p a c, artefact text bytes enc dec FXml d p = Some a -> to_source text bytes enc dec s a = Some c ->
+  deserialize_input text bytes enc dec ldec FXml c = Some (PBytes text bytes (enc p)).
+Proof. exact xml_parser_gets_bytes. Qed.
+
+(* prov.read without a format, on a text stream, a binary stream or a file holding p, whatever destination kind p was
+   written to: the serializers are tried in the registry's order (generated from /repo), each on the whole content; the
+   one p is a serialisation for accepts and is handed p (fmt_of: the format a text is a serialisation of; a parser
+   accepts exactly the serialisations of its own format — the law measured per run) *)
+Theorem C16_read_detects : forall text bytes (enc : text -> bytes) (dec ldec : bytes -> option text),
+  (forall t, dec (enc t) = Some t) -> (forall t, ldec (enc t) = Some t) ->
+  forall (fmt_of : text -> fmt) f d s p, fmt_of p = f -> f <> FProvn ->
+  In s [STextStream; SBinaryStream; SPath] ->
+  exists a c x, artefact text bytes enc dec f d p = Some a /\ to_source text bytes enc dec s a = Some c /\
+                read_detect text bytes enc dec ldec fmt_of serializer_order c = Some (f, x) /\ carries text bytes enc x p.
+Proof. exact read_detects. Qed.
+Print Assumptions C16_read_detects.
 
 (* before the repair: on a stream holding XML or TriG, the JSON attempt consumed the
    stream and the TriG attempt accepted the empty remainder (an empty document) *)
